@@ -79,7 +79,7 @@ def dCommit (s : DSt) (writes : Writes DV) (delta : PMap DV) : DSt × String :=
   match rb1.sync with
   | .ok (range, rb2) => ({ s with store := kvApply s.store writes, rb := rb2, published := range }, s!"ok {dShowView rb2}")
   | .err _ => (s, "err")
-  | .panic m => (s, s!"panic {m}")
+  | .panic m => (s, "panic")
 
 def deltaStep (s : DSt) (line : String) : DSt × String :=
   match fields line with
@@ -94,7 +94,7 @@ def deltaStep (s : DSt) (line : String) : DSt × String :=
        | .ok l => ({ s with lives := (sid, l, []) :: s.lives.filter (·.1 != sid) }, "ok")
        | .err .notAncestor => (s, "err notancestor")
        | .err .incomplete => (s, "err incomplete")
-       | .panic m => (s, s!"panic {m}"))
+       | .panic m => (s, "panic"))
     | _, _ => (s, "bad-op")
   | ["hint", sid, k] =>
     match sid.toNat?, keyOfHex k with
@@ -114,7 +114,7 @@ def deltaStep (s : DSt) (line : String) : DSt × String :=
                       fins := { id := fid, live := l, writes := writesOf acts, delta := d } :: s.fins },
              s!"priors {dShowPriors "," d}")
           | .err _ => (s, "err")
-          | .panic m => (s, s!"panic {m}"))
+          | .panic m => (s, "panic"))
        | none => (s, "bad-op"))
     | _, _, _ => (s, "bad-op")
   | ["overlay", fid, oid] =>
@@ -127,7 +127,7 @@ def deltaStep (s : DSt) (line : String) : DSt × String :=
                    fins := s.fins.filter (·.id != f.id) },
           s!"ok delta={dShowPriors "," f.delta}")
        | .err _ => (s, "err")
-       | .panic m => (s, s!"panic {m}"))
+       | .panic m => (s, "panic"))
     | _, _ => (s, "bad-op")
   | ["commitfin", fid] =>
     match fid.toNat?.bind (fun i => s.fins.find? (·.id == i)) with
@@ -144,7 +144,7 @@ def deltaStep (s : DSt) (line : String) : DSt × String :=
             ({ s with store := kvApply s.store f.writes, rb := rb2, published := range,
                       fins := s.fins.filter (·.id != f.id) }, s!"ok {dShowView rb2}")
           | .err _ => (s, "err")
-          | .panic m => (s, s!"panic {m}")))
+          | .panic m => (s, "panic")))
     | _, _ => (s, "bad-op")
   | ["commitov", oid] =>
     match oid.toNat?.bind (fun i => s.ovInfo.find? (·.1 == i)) with
@@ -165,13 +165,14 @@ def deltaStep (s : DSt) (line : String) : DSt × String :=
           | .ok (range, rb2) =>
             ({ s with store := kvApply s.store tb, rb := rb2, published := range }, s!"ok {dShowView rb2}")
           | .err _ => (s, "err")
-          | .panic m => (s, s!"panic {m}"))
+          | .panic m => (s, "panic"))
        | .err _ => (s, "err")
-       | .panic m => (s, s!"panic {m}"))
+       | .panic m => (s, "panic"))
     | none => (s, "bad-op")
   | ["reopen"] =>
-    let rb' := Rb.read s.rb.maxLen s.published s.rb.seg.recs
-    ({ s with rb := rb' }, s!"ok {dShowView rb'}")
+    (match Rb.read s.rb.maxLen s.published s.rb.seg.recs with
+     | .ok rb' => ({ s with rb := rb' }, s!"ok {dShowView rb'}")
+     | _ => (s, "err"))
   | ["dump", keys] =>
     match (optList keys ",").mapM keyOfHex with
     | some ks => (s, dShowPriors "," (ks.map (fun k => (k, kvGet s.store k))))
@@ -180,8 +181,9 @@ def deltaStep (s : DSt) (line : String) : DSt × String :=
   | ["rb-open", m, a, b] =>
     match m.toNat?, a.toNat?, b.toNat? with
     | some m, some a, some b =>
-      let rb' := Rb.read m (a, b) s.rb.seg.recs
-      ({ s with rb := rb' }, s!"ok {dShowView rb'}")
+      (match Rb.read m (a, b) s.rb.seg.recs with
+       | .ok rb' => ({ s with rb := rb' }, s!"ok {dShowView rb'}")
+       | _ => (s, "err"))
     | _, _, _ => (s, "bad-op")
   | ["rb-commit", p] =>
     match parseOps p with
